@@ -228,16 +228,17 @@ func childQueries(c *core.Ctx) childResult {
 		wantErr string
 	}
 	qs := []q{
-		{"SELECT a.id, b.v FROM a.json a JOIN b.json b ON a.id = b.id", lines, ""},
-		{"SELECT x.id, y.v FROM a.json x JOIN a.json y ON x.id = y.id", lines, ""},
-		{"SELECT a.id, b.v, c.s FROM a.json a JOIN b.json b ON a.id = b.id JOIN c.json c ON b.id = c.id", lines, ""},
+		{"SELECT a.id, b.v, a.u, b.w FROM a.json a JOIN b.json b ON a.id = b.id", lines, ""},
+		{"SELECT x.id, y.v, x.n, y.o FROM a.json x JOIN a.json y ON x.id = y.id", lines, ""},
+		{"SELECT a.id, b.v, c.s, a.u, b.o, c.w FROM a.json a JOIN b.json b ON a.id = b.id JOIN c.json c ON b.id = c.id", lines, ""},
 		{"SELECT x.id, y.v FROM (SELECT * FROM a.json WHERE s LIKE p OR s ~ '^ab[0-4]' OR s ~* 'AB7.') x JOIN (SELECT * FROM b.json WHERE s LIKE p OR s ~ '^ab[0-4]' OR s ~* 'AB7.') y ON x.id = y.id", countRows(lines, predFew), ""},
 		{"SELECT a.id, b.v FROM a.json a JOIN b.json b ON a.id = b.id LIMIT 7", 7, ""},
 		{"SELECT x.id, y.v FROM (SELECT * FROM a.json LIMIT 50) x JOIN b.json y ON x.id = y.id", 50, ""},
 		{"SELECT x.id, c.v FROM (SELECT a.id AS id FROM a.json a JOIN b.json b ON a.id = b.id LIMIT 5) x JOIN c.json c ON x.id = c.id", 5, ""},
 		{fmt.Sprintf("SELECT x.id, y.v FROM (SELECT * FROM a.json WHERE id != %d.0 OR panic('x') IS NULL) x JOIN b.json y ON x.id = y.id", k), -1, "panic: 'x'"},
 		{"SELECT x.id, y.v FROM bad.json x JOIN b.json y ON x.id = y.id", -1, "couldn't parse line"},
-		{"SELECT count(*) AS n FROM a.json", 1, ""},
+		{"SELECT id, u, w, n, o FROM a.json", lines, ""},
+		{"SELECT x.u, count(*) AS n FROM a.json x JOIN b.json y ON x.id = y.id GROUP BY x.u", 10, ""},
 	}
 	K := 4
 	rounds := c.Pick(2, 6)
